@@ -34,7 +34,7 @@ Proof. destruct k, t; reflexivity. Qed.
 (** Slot contents: a value; [0] is the all-zero byte pattern the crate reserves for "empty".
     Plain mode ([usize] items): every value is an ordinary number (0 included).
     Owned mode ([Drop] items): a non-zero value is the identity of a live object. *)
-Definition cell := N.
+Notation cell := N (only parsing).
 
 (** Operations: one constructor per public method family (the history-file names that map to
     each constructor are listed in ocaml/driver.ml and DESIGN.md appendix A). *)
